@@ -52,6 +52,14 @@ def main():
             violations.append(("verifharness no longer builds against /repo (the correspondence cannot be run)",
                                {"go_build_log": str(e)[-6000:]}, True))
         res = None
+        if a.replay and ctx.harness:
+            rep = getattr(mod, "replay", None)
+            if rep is None:
+                import histcheck
+                rep = histcheck.replay
+            fs = rep(ctx, a.replay)
+            vlib.cleanup()
+            sys.exit(1 if fs else 0)
         if ctx.harness and ok:
             res = mod.run(ctx)
             for v in res.get("violations", []):
